@@ -218,6 +218,15 @@ func (f *Interface) handleOutsideRelayPacket(hostinfo *HostInfo, via ViaSender, 
 		}
 		f.readOutsidePackets(via, signedPayload, rxc)
 	case ForwardingType:
+		// Only forward while we are configured as a relay. Forwarding relays negotiated before a reload
+		// turned relay.am_relay off must not keep carrying traffic.
+		if !f.relayManager.GetAmRelay() {
+			if f.l.Enabled(context.Background(), slog.LevelDebug) {
+				hostinfo.logger(f.l).Debug("Refusing to forward relay packet, am_relay is disabled", "relayTo", relay.PeerAddr)
+			}
+			return
+		}
+
 		// Find the target HostInfo relay object
 		targetHI, targetRelay, err := f.hostMap.QueryVpnAddrsRelayFor(hostinfo.vpnAddrs, relay.PeerAddr)
 		if err != nil {
